@@ -25,6 +25,9 @@ import sys
 sys.path.insert(0, os.path.dirname(os.path.abspath(__file__)))
 import astutil_G1 as U  # noqa: E402
 
+# the plug-in and its helpers are inputs too: a change of either regenerates the file
+SELF = ["../verif-self:tools/gen/consts.py", "../verif-self:tools/gen/astutil_G1.py"]
+
 from translate import TranslateError, generator, rat, HEADER  # noqa: E402
 
 SRC = "osaca/semantics/arch_semantics.py"
@@ -159,7 +162,7 @@ def _tp_sum(cls):
     return digits, flt[0]
 
 
-@generator("Consts", [SRC, "osaca/semantics/kernel_dg.py"])
+@generator("Consts", [SRC, "osaca/semantics/kernel_dg.py"] + SELF)
 def gen_consts():
     U.reset_cache()
     cls = U.mod_scope(SRC).cls("ArchSemantics")
